@@ -346,6 +346,31 @@ pub fn events_c12(ci: usize, case: &Value) -> Vec<Value> {
                         "observed": observed.iter().map(|(a, b)| json!({"m": a, "syms": b})).collect::<Vec<_>>(),
                         "asn": srcs.join("")}));
     }
+    // dummy references are local to their template (spec/Scope.tla): a module that instantiates parameterized types, compiled alone
+    // and next to an unrelated module that declares a type / a value spelled like the template's dummies; neighbour named to sort
+    // before or after, handed over first or last
+    if ci % 4 == 2 {
+        let v = ci / 4;
+        let (sel, first_name, first_order) = (v % 3, (v / 3) % 2 == 0, (v / 6) % 2 == 0);
+        let user = "Mod-P DEFINITIONS AUTOMATIC TAGS ::= BEGIN\nAawrap { Payload } ::= SEQUENCE { body Payload, n INTEGER }\nAabound { INTEGER: limit } ::= INTEGER (0..limit)\nFrame ::= Aawrap { BOOLEAN }\nLevel ::= Aabound { 7 }\nEND\n".to_string();
+        let mut nb = vec![];
+        if sel != 1 {
+            nb.push("Payload ::= OCTET STRING");
+        }
+        if sel != 0 {
+            nb.push("limit INTEGER ::= 100");
+        }
+        nb.push("Other ::= NULL");
+        let neigh = format!("{} DEFINITIONS IMPLICIT TAGS ::= BEGIN\n{}\nEND\n", if first_name { "Aa-Neigh" } else { "Zz-Neigh" }, nb.join("\n"));
+        let alone = compile_hooked(&[user.clone()]);
+        let both = compile_hooked(&if first_order { vec![neigh.clone(), user.clone()] } else { vec![user.clone(), neigh.clone()] });
+        for dn in ["Frame", "Level"] {
+            evs.push(json!({"ev": "modcmp", "case": ci, "module": "Mod-P", "ctx": "compiled together with an unrelated module that declares names spelled like the dummy references of a parameterized type", "def": dn,
+                            "enum_sensitive": false, "same_name": false, "other_ok": alone.outcome.status == "ok" && both.outcome.status == "ok",
+                            "same": items_of(&alone.krate, dn) == items_of(&both.krate, dn) && !items_of(&alone.krate, dn).is_empty(),
+                            "asn": format!("{user}{neigh}")}));
+        }
+    }
     // two revisions of one module: the same module reference, different headers, disjoint names (spec/Headers.tla).  The second
     // revision compiled alone and together with the first, in both orders: its bindings must be the same
     if ci % 4 == 0 {
